@@ -5,6 +5,7 @@ package main
 import (
 	"encoding/json"
 	"fmt"
+	kjson "k8s.io/apimachinery/pkg/util/json"
 	"sort"
 
 	"github.com/crossplane/crossplane/verifh/kit"
@@ -89,6 +90,14 @@ func specPool() []map[string]any {
 				"patches": []any{map[string]any{"type": "PatchSet", "patchSetName": "ps"}}}},
 		},
 		with(pipeline(stepOf("step-a", "fn-a", nil)), "compositeTypeRef", map[string]any{"apiVersion": "ex.org/v2", "kind": "XThing"}),
+		// [10]-[12]: 64-bit integers no float64 holds exactly, in a function input and in a base
+		pipeline(stepOf("step-a", "fn-a", map[string]any{"apiVersion": "in.ex.org/v1", "kind": "Input", "quotaBytes": int64(9223372036854775807)})),
+		pipeline(stepOf("step-a", "fn-a", map[string]any{"apiVersion": "in.ex.org/v1", "kind": "Input", "quotaBytes": int64(9223372036854775806)})),
+		{
+			"compositeTypeRef": map[string]any{"apiVersion": "ex.org/v1", "kind": "XThing"},
+			"mode":             "Resources",
+			"resources":        []any{map[string]any{"name": "a", "base": map[string]any{"apiVersion": "nop.ex.org/v1", "kind": "Nop", "spec": map[string]any{"forProvider": map[string]any{"id": int64(9007199254740993)}}}}},
+		},
 	}
 }
 
@@ -117,7 +126,7 @@ func selfCheckSpecs() error {
 		}
 		b2, _ := json.Marshal(t)
 		var back map[string]any
-		_ = json.Unmarshal(b2, &back)
+		_ = kjson.Unmarshal(b2, &back) // int-preserving, as the API machinery decodes
 		if kit.JSON(back) != kit.JSON(s) {
 			return fmt.Errorf("spec %d is not canonical: %s vs %s", i, kit.JSON(back), kit.JSON(s))
 		}
@@ -215,6 +224,7 @@ func baseHistories() []history {
 		// lost the label cannot succeed on the unchanged tree - the name is taken - and is not asked for)
 		{Name: "unlabel-old-then-edit", Contents: []content{A, B, C, D}, Steps: []step{ed(0), ed(1), {Op: "unlabel-old"}, ed(2), ed(3), ed(2)}},
 		{Name: "unlabel-old-revert", Contents: []content{A, B, C, D}, Steps: []step{ed(0), ed(1), ed(2), {Op: "unlabel-old", NoReconcile: true}, ed(3), ed(2), ed(3)}},
+		{Name: "big-integers", Contents: []content{{Labels: st, Spec: sp[10]}, {Labels: st, Spec: sp[11]}, {Labels: st, Spec: sp[12]}}, Steps: []step{ed(0), ed(1), ed(0), ed(2), ed(1)}},
 		{Name: "foreign-mid", Contents: []content{A, B, C}, Steps: []step{ed(0), ed(1), fadd, ed(2), frm, ed(0)}},
 		{Name: "foreign-first", Contents: []content{A, B}, Steps: []step{{Op: "foreign-add", NoReconcile: true}, ed(0), frm, ed(1), ed(0)}},
 		{Name: "foreign-stays", Contents: []content{A, Abeta}, Steps: []step{ed(0), ed(1), ed(0), fadd, ed(1)}},
